@@ -22,7 +22,7 @@ LEVEL = "proof"
 TECHNIQUE = ("Lean 4 proofs about hand models of the three engine mechanisms (iterative instruction walker, variables stack, "
              "pending start tag) + differential correspondence of the real XalanTransformer against an independent "
              "executable XSLT 1.0 core specification written in Lean")
-LEVEL_TEXT = ("PROVED in Lean, for all inputs (15 theorems, lean/XalanModel/Props/C01.lean): "
+LEVEL_TEXT = ("PROVED in Lean, for all inputs (18 theorems, lean/XalanModel/Props/C01.lean): "
               "(1) walker_eq_recursion / walker_restores_stack — for every instruction tree over leaf / block / call-template / choose / "
               "for-each (any node count) / apply-templates (any sequence of selected templates) / use-attribute-sets (any nested sets), any nesting "
               "and call graph, the iterative startElement/endElement/getInvoker/getNextChildElemToExecute loop of ElemTemplateElement::execute "
@@ -43,7 +43,11 @@ LEVEL_TEXT = ("PROVED in Lean, for all inputs (15 theorems, lean/XalanModel/Prop
               "Core.inst by induction on the specification's fuel.) "
               "(2) variables_lexical(_params) / variables_lookup_pure / variables_balanced — VariablesStack::findEntry returns the innermost "
               "binding of the current template instance, else the global one, whatever the callers' frames hold, and popContextMarker "
-              "discards a frame whole. "
+              "discards a frame whole; variables_attribute_set_scope — with the current stack frame index set to the global one "
+              "(ElemAttributeSet::startElement) a variable reference returns the top-level binding whatever the using template and its "
+              "callers have bound under the same name (XSLT 7.1.4), and attribute_sets_see_only_globals — in Spec.lean the events of "
+              "the used attribute sets do not depend on the user's local variables / passed parameters; "
+              "variables_attribute_set_wrong_index_counterexample shows the lookup with the index left at the current frame. "
               "(3) pending_refines_spec / pending_wellformed — for every sequence of engine calls the pending-start-tag protocol of "
               "XSLTEngineImpl delivers a balanced stream with attributes only inside start tags, and exactly the XSLT 7.1.3 tree when "
               "attributes are added through the guarded path. Three counterexample theorems (replayed on the real engine) show where the "
@@ -91,6 +95,9 @@ THEOREMS = [
     "XalanModel.Props.C01.variables_lookup_pure",
     "XalanModel.Props.C01.variables_balanced",
     "XalanModel.Props.C01.variables_activation_leak_counterexample",
+    "XalanModel.Props.C01.variables_attribute_set_scope",
+    "XalanModel.Props.C01.variables_attribute_set_wrong_index_counterexample",
+    "XalanModel.Props.C01.attribute_sets_see_only_globals",
     "XalanModel.Props.C01.pending_refines_spec",
     "XalanModel.Props.C01.pending_wellformed",
     "XalanModel.Props.C01.pending_unguarded_attribute_counterexample",
@@ -550,6 +557,23 @@ CORPUS = [
       "templates": [ROOT_T([LRE("out", [{"k": "usesets", "names": ["s1"]}, ATTR("z", [T("3")]),
                                         {"k": "element", "name": [("l", "e")], "body": [{"k": "usesets", "names": ["s0", "s1"]}]}],
                                 attrs=[("k", [("l", "v")])])])]}, DOC0),
+    # scope of attribute sets (XSLT 7.1.4): $gs inside the set is the top-level binding, although the using template has a local
+    # variable / a parameter (default and with-param) / a nested set of the same name; via literal element, xsl:element, xsl:copy
+    ({"globals": [{"k": "variable", "name": "gs", "select": ("lit", "glob"), "body": []}],
+      "attrsets": [{"name": "sc", "uses": [], "body": [ATTR("sc", [{"k": "valueof", "e": ("var", "gs")}])]},
+                   {"name": "sc2", "uses": ["sc"], "body": [ATTR("sc2", [{"k": "valueof", "e": ("fn", "concat", [("var", "gs"), ("lit", "2")])}])]}],
+      "templates": [ROOT_T([{"k": "variable", "name": "gs", "select": ("lit", "loc"), "body": []},
+                            LRE("w", [{"k": "usesets", "names": ["sc2"]}, {"k": "valueof", "e": ("var", "gs")}]),
+                            {"k": "element", "name": [("l", "el")], "body": [{"k": "usesets", "names": ["sc"]}]},
+                            {"k": "call", "name": "tc", "params": [{"k": "withparam", "name": "gs", "select": ("fn", "concat", [("var", "gs"), ("lit", "-wp")]), "body": []}]},
+                            {"k": "call", "name": "tc", "params": []},
+                            {"k": "apply", "select": ("step", ("ctx",), "child", "star", []), "mode": None, "sorts": [], "params": []}]),
+                    {"pats": [], "name": "tc", "mode": None, "prio": None,
+                     "body": [{"k": "param", "name": "gs", "select": ("fn", "concat", [("var", "gs"), ("lit", "-dflt")]), "body": []},
+                              LRE("w", [{"k": "usesets", "names": ["sc", "sc2"]}, {"k": "valueof", "e": ("var", "gs")}])]},
+                    {"pats": [("step", ("ctx",), "child", ("name", "r"), [])], "name": None, "mode": None, "prio": None,
+                     "body": [{"k": "variable", "name": "gs", "select": None, "body": [T("rtf")]},
+                              {"k": "copy", "body": [{"k": "usesets", "names": ["sc"]}, {"k": "valueof", "e": ("var", "gs")}]}]}]}, DOC0),
     # empty value-of / empty RTF copy-of do not close the start tag
     ({"globals": [], "templates": [ROOT_T([LRE("out", [{"k": "valueof", "e": ("lit", "")}, ATTR("y", [T("2")])])])]}, DOC0),
 ]
